@@ -831,14 +831,18 @@ class KVGarbageCollector(BaseGarbageCollector):
                 event_id = key[-32:].hex()
                 to_del.append(event_id)
         # remove all expired events
-        start = INDEXES["tags"].to_key(("expiration", "0"))
-        end = INDEXES["tags"].to_key(("expiration", str(int(time()))))
-        if cursor.set_range(start):
+        # entries are <prefix><value>\x00<time>\x00<id>; the values are decimal text, whose byte
+        # order is not numeric order ("900" > "1001"): compare each value as a number
+        prefix = INDEXES["tags"].to_key(("expiration", ""))
+        now = int(time())
+        if cursor.set_range(prefix):
             for key in cursor.iternext(values=False):
-                if key > end:
+                if key[: len(prefix)] != prefix:
                     break
-                event_id = key[-32:].hex()
-                to_del.append(event_id)
+                value = bytes(key[len(prefix) : -38])
+                if value.isdigit() and int(value) < now:
+                    event_id = key[-32:].hex()
+                    to_del.append(event_id)
 
         cursor.close()
         if to_del:
